@@ -46,6 +46,8 @@ func VerifH_C14_finisher_workers() {
 	}
 	if paused {
 		verifrt.Cover("stop-while-paused")
+		verifrt.Quiesce() // every worker has seen the pause and waits to acknowledge it
+		f.inputCh <- models.NewItem("late", &models.URL{Raw: "http://x.example/late"}, "") // work arrives while the stage is paused
 	} else {
 		verifrt.Cover("stop-while-running")
 	}
@@ -53,4 +55,7 @@ func VerifH_C14_finisher_workers() {
 	f.cancel()
 	f.wg.Wait()
 	verifrt.Cover("stopped")
+	if paused {
+		verifrt.Assert(len(f.inputCh) == 1, "C14 a paused worker takes no work, also when its stage is stopped while paused")
+	}
 }
